@@ -27,7 +27,8 @@ pub struct Mixed {
     /// false: SynExprSubst (default), true: ExtractionSubst
     pub extraction_subst: bool,
     /// 0: rules as written; 1: the slot names inside the rules are renamed ($x -> $rz, $y -> $ry, ...) and interned in the
-    /// reverse order first (rules are inputs too: C11)
+    /// reverse order first (rules are inputs too: C11); 2 + k: the rule's slots are spelled with names of parameter slots of
+    /// classes existing when the rule is built (`build_rule_classnamed`)
     #[serde(default)]
     pub rule_slot_variant: u8,
 }
@@ -75,6 +76,12 @@ pub fn rule_pool(lang: LangId) -> Vec<RuleTxt> {
             r("t3-dup", "(t3 ?a ?b ?a)", "(p ?a ?b)"),
             r("q2-swap", "(q2 $x (q2 $y ?a))", "(q2 $y (q2 $x ?a))"),
             r("q2-drop", "(q2 $x ?a)", "(w ?a)"),
+            // left sides that bind two slots and use the first-bound one again later (the slot bijection of a match is
+            // extended out of key order), also through nested binders
+            r("p-f2-v", "(p (f2 $x $y) (v $x))", "(p (v $y) (f2 $y $x))"),
+            r("lam-lam-use", "(lam $x (lam $y (p (v $x) ?a)))", "(lam $y (lam $x (p ?a (v $x))))"),
+            r("q2-q2-v", "(q2 $x (q2 $y (v $x)))", "(q2 $y (v $y))"),
+            r("g3-v-first", "(p (g3 $x $y $z) (v $x))", "(p (g3 $z $y $x) (v $z))"),
         ],
         LangId::Lambda => vec![
             rs("beta", "(app (lam $x ?b) ?e)", "?b[(var $x) := ?e]"),
@@ -188,6 +195,93 @@ pub fn build_rule_renamed<L: Language + 'static, N: Analysis<L> + 'static>(rt: &
         None => Rewrite::new(rt.name, &lhs, &rhs),
         Some((s, v)) => {
             let slot = Slot::named(&format!("r{}", s));
+            let var = v.to_string();
+            Rewrite::new_if(rt.name, &lhs, &rhs, move |subst, _| !subst[&*var].slots().contains(&slot))
+        }
+    }
+}
+
+fn slot_names_in(s: &str) -> Vec<String> {
+    let mut out = Vec::new();
+    let cs: Vec<char> = s.chars().collect();
+    let mut i = 0;
+    while i < cs.len() {
+        if cs[i] == '$' {
+            let mut j = i + 1;
+            while j < cs.len() && !cs[j].is_whitespace() && !"()[]".contains(cs[j]) {
+                j += 1;
+            }
+            let n: String = cs[i + 1..j].iter().collect();
+            if !out.contains(&n) {
+                out.push(n);
+            }
+            i = j;
+        } else {
+            i += 1;
+        }
+    }
+    out
+}
+
+/// the rule with its pattern slots spelled with the names of parameter slots of classes that exist in the e-graph right now
+/// (`$f<n>`: the user may write such names; they denote the very slots the library invented).  Naming an existing slot does
+/// not move the fresh counter, so the run differs from the original one only in the names of the rule's slots.  `k` varies
+/// which class slots are taken.  Rule slots for which no class slot is left keep a textual name.
+pub fn build_rule_classnamed<L: Language + 'static, N: Analysis<L> + 'static>(rt: &RuleTxt, eg: &EGraph<L, N>, k: usize) -> Rewrite<L, N> {
+    let mut names = slot_names_in(rt.lhs);
+    for n in slot_names_in(rt.rhs) {
+        if !names.contains(&n) {
+            names.push(n);
+        }
+    }
+    if let Some((sl, _)) = rt.not_free {
+        if !names.contains(&sl.to_string()) {
+            names.push(sl.to_string());
+        }
+    }
+    let mut avail: Vec<String> = Vec::new();
+    for i in eg.ids() {
+        for s in eg.slots(i) {
+            let n = s.to_string()[1..].to_string();
+            if !avail.contains(&n) {
+                avail.push(n);
+            }
+        }
+    }
+    avail.sort();
+    let mut map: Vec<(String, String)> = Vec::new();
+    for (i, n) in names.iter().enumerate() {
+        let target = if avail.is_empty() { format!("r{}", n) } else { avail.remove((k * 5 + i * 3) % avail.len()) };
+        map.push((n.clone(), target));
+    }
+    let ren = |s: &str| -> String {
+        let mut out = String::new();
+        let cs: Vec<char> = s.chars().collect();
+        let mut i = 0;
+        while i < cs.len() {
+            if cs[i] == '$' {
+                let mut j = i + 1;
+                while j < cs.len() && !cs[j].is_whitespace() && !"()[]".contains(cs[j]) {
+                    j += 1;
+                }
+                let n: String = cs[i + 1..j].iter().collect();
+                let t = map.iter().find(|(a, _)| *a == n).map(|(_, b)| b.clone()).unwrap_or(n);
+                out.push('$');
+                out.push_str(&t);
+                i = j;
+            } else {
+                out.push(cs[i]);
+                i += 1;
+            }
+        }
+        out
+    };
+    let (lhs, rhs) = (ren(rt.lhs), ren(rt.rhs));
+    match rt.not_free {
+        None => Rewrite::new(rt.name, &lhs, &rhs),
+        Some((s, v)) => {
+            let t = map.iter().find(|(a, _)| a == s).map(|(_, b)| b.clone()).unwrap_or(s.to_string());
+            let slot = Slot::named(&t);
             let var = v.to_string();
             Rewrite::new_if(rt.name, &lhs, &rhs, move |subst, _| !subst[&*var].slots().contains(&slot))
         }
@@ -397,7 +491,11 @@ pub fn drive<L: Language + 'static, N: Analysis<L> + 'static>(
             MOp::Rewrite(rs) => {
                 let rules: Vec<Rewrite<L, N>> = rs
                     .iter()
-                    .map(|i| if case.rule_slot_variant == 1 { build_rule_renamed::<L, N>(&pool[*i % pool.len()]) } else { build_rule::<L, N>(&pool[*i % pool.len()]) })
+                    .map(|i| match case.rule_slot_variant {
+                        0 => build_rule::<L, N>(&pool[*i % pool.len()]),
+                        1 => build_rule_renamed::<L, N>(&pool[*i % pool.len()]),
+                        k => build_rule_classnamed::<L, N>(&pool[*i % pool.len()], eg, k as usize - 2),
+                    })
                     .collect();
                 if apply_rewrites(eg, &rules) {
                     st.rewrites_changed += 1;
